@@ -228,7 +228,7 @@ pub fn replay(ctx: &mut Ctx, case: &Case) {
 fn run_c14(ctx: &mut Ctx) {
     let tier = ctx.tier;
     let mut rng = Rng::derive(ctx.seed, 0x1414, 0);
-    let k = tier.pick(5, 10, 12);
+    let k = tier.pick(5, 11, 13);
     for ty in 0..NTYPES {
         let cap = TYPE_FIXED_CAP[ty].unwrap_or(usize::MAX);
         for n in 0..=k.min(cap) {
@@ -276,7 +276,7 @@ fn run_c14(ctx: &mut Ctx) {
             }
         }
     }
-    let per = tier.pick(100, 10_000, 400_000) / ctx.nworkers + 1;
+    let per = tier.pick(100, 150_000, 2_000_000) / ctx.nworkers + 1;
     let mut rng = Rng::derive(ctx.seed, 0x1415, ctx.worker as u64);
     for _ in 0..per {
         let ty = rng.below(NTYPES);
@@ -298,7 +298,7 @@ fn run_c15(ctx: &mut Ctx) {
     for ty in 0..NTYPES {
         let cap = TYPE_FIXED_CAP[ty];
         // all binary strings of length <= k, all hex strings of <= 2 (3) digits
-        let k = tier.pick(5, 10, 12);
+        let k = tier.pick(5, 12, 14);
         if ctx.mine() {
             for n in 0..=k {
                 for v in gen::all_values(n) {
@@ -311,7 +311,7 @@ fn run_c15(ctx: &mut Ctx) {
                 emit_parse(ctx, ty, &a.to_string(), true, "W1-all-short-hex-strings");
                 for b in HEXD {
                     emit_parse(ctx, ty, &format!("{}{}", a, b), true, "W1-all-short-hex-strings");
-                    if tier == Tier::Thorough {
+                    if tier != Tier::Tiny {
                         for c in HEXD {
                             emit_parse(ctx, ty, &format!("{}{}{}", a, b, c), true, "W1-all-short-hex-strings");
                         }
@@ -326,7 +326,7 @@ fn run_c15(ctx: &mut Ctx) {
         };
         if ctx.mine() {
             for n in blens {
-                for rep in 0..tier.pick(1, 4, 16) {
+                for rep in 0..tier.pick(1, 12, 48) {
                     let bits = match rep {
                         0 => vec![true; n],
                         1 => vec![false; n],
@@ -353,10 +353,10 @@ fn run_c15(ctx: &mut Ctx) {
             }
             for hex in [false, true] {
                 let nd = if hex { (n / 4).max(1) } else { n };
-                let positions: Vec<usize> = if tier == Tier::Thorough || nd <= 12 { (0..nd).collect() } else { vec![0, 1, nd / 2, nd - 2, nd - 1] };
+                let positions: Vec<usize> = if tier != Tier::Tiny || nd <= 12 { (0..nd).collect() } else { vec![0, 1, nd / 2, nd - 2, nd - 1] };
                 for pos in positions {
                     for off in OFFENDERS {
-                        if tier != Tier::Thorough && rng.below(2) == 0 && pos != 0 && pos != nd - 1 {
+                        if tier == Tier::Tiny && rng.below(2) == 0 && pos != 0 && pos != nd - 1 {
                             continue;
                         }
                         if hex && off.chars().all(|c| c.is_ascii_hexdigit()) {
